@@ -1,0 +1,20 @@
+//go:build !verif
+
+// Package verifhook holds observation points for external runtime monitors. Without the "verif"
+// build tag every function is empty and is inlined away.
+package verifhook
+
+// Enabled reports whether the hooks are compiled in.
+const Enabled = false
+
+// Point marks a named location in the code.
+func Point(name string) {}
+
+// Dec reports one decoration being applied by the restorer.
+func Dec(nodeType, point string, text string, cursor, cursorAtNewLine int) {}
+
+// Space reports a Before / After spacing being applied by the restorer.
+func Space(nodeType, position string, space, newlines, cursor int) {}
+
+// Attach reports a comment or newline fragment being attached to a decoration point by the decorator.
+func Attach(text, nodeType, point string) {}
